@@ -81,3 +81,285 @@ theorem C12_root_constraint (r : ℕ → ℝ) (n k cond : ℕ) (neg : Bool) (v :
 
 end Eval
 end LP
+
+/-! ### the sweep: maximal runs of satisfied cells are exactly the satisfied cells -/
+
+namespace LP
+namespace Eval
+
+/-- v is at or above the lower boundary of cell j -/
+def lowerOK (r : ℕ → ℝ) (j : ℕ) (v : ℝ) : Prop :=
+  if (cellLo j).2 then EPt.val r (cellLo j).1 < (v : EReal) else EPt.val r (cellLo j).1 ≤ (v : EReal)
+/-- v is at or below the upper boundary of cell j -/
+def upperOK (r : ℕ → ℝ) (n j : ℕ) (v : ℝ) : Prop :=
+  if (cellHi n j).2 then (v : EReal) < EPt.val r (cellHi n j).1 else (v : EReal) ≤ EPt.val r (cellHi n j).1
+
+/-- v lies in cell j (j even: the open gap before root j/2; j odd: the root (j-1)/2) -/
+def cellMem (r : ℕ → ℝ) (n j : ℕ) (v : ℝ) : Prop := lowerOK r j v ∧ upperOK r n j v
+
+theorem lowerOK_odd (r : ℕ → ℝ) (k : ℕ) (v : ℝ) : lowerOK r (2 * k + 1) v ↔ r k ≤ v := by
+  unfold lowerOK cellLo
+  have h1 : (2 * k + 1) % 2 = 1 := by omega
+  have h2 : (2 * k + 1) / 2 = k := by omega
+  simp only [h1, if_true, h2, EPt.val]
+  simp
+theorem lowerOK_even_succ (r : ℕ → ℝ) (k : ℕ) (v : ℝ) : lowerOK r (2 * (k + 1)) v ↔ r k < v := by
+  unfold lowerOK cellLo
+  have h1 : (2 * (k + 1)) % 2 ≠ 1 := by omega
+  have h2 : (2 * (k + 1)) / 2 - 1 = k := by omega
+  have h3 : 2 * (k + 1) ≠ 0 := by omega
+  simp only [h1, if_false, h3, h2, EPt.val]
+  simp
+theorem lowerOK_zero (r : ℕ → ℝ) (v : ℝ) : lowerOK r 0 v := by
+  unfold lowerOK cellLo
+  simp [EPt.val]
+theorem upperOK_odd (r : ℕ → ℝ) (n k : ℕ) (v : ℝ) : upperOK r n (2 * k + 1) v ↔ v ≤ r k := by
+  unfold upperOK cellHi
+  have h1 : (2 * k + 1) % 2 = 1 := by omega
+  have h2 : (2 * k + 1) / 2 = k := by omega
+  simp only [h1, if_true, h2, EPt.val]
+  simp
+theorem upperOK_even (r : ℕ → ℝ) (n k : ℕ) (v : ℝ) (hk : k < n) : upperOK r n (2 * k) v ↔ v < r k := by
+  unfold upperOK cellHi
+  have h1 : (2 * k) % 2 ≠ 1 := by omega
+  have h2 : (2 * k) / 2 = k := by omega
+  have h3 : 2 * k ≠ 2 * n := by omega
+  simp only [h1, if_false, h3, h2, EPt.val]
+  simp
+theorem upperOK_last (r : ℕ → ℝ) (n : ℕ) (v : ℝ) : upperOK r n (2 * n) v := by
+  unfold upperOK cellHi
+  have h1 : (2 * n) % 2 ≠ 1 := by omega
+  simp [h1, EPt.val]
+
+/-- the upper boundary of cell j is the lower boundary of cell j+1 with the opposite strictness -/
+theorem upper_compl (r : ℕ → ℝ) (n j : ℕ) (v : ℝ) (hj : j < 2 * n) : ¬ upperOK r n j v ↔ lowerOK r (j + 1) v := by
+  rcases Nat.even_or_odd' j with ⟨k, rfl | rfl⟩
+  · rw [upperOK_even r n k v (by omega), lowerOK_odd]; exact not_lt
+  · have : 2 * k + 1 + 1 = 2 * (k + 1) := by ring
+    rw [this, upperOK_odd, lowerOK_even_succ]; exact not_le
+
+/-- lower boundaries are increasing: being above the boundary of cell j+1 implies being above that of cell j -/
+theorem lower_antitone_step (r : ℕ → ℝ) (n : ℕ) (hr : ∀ i j, i < j → j < n → r i < r j) (j : ℕ) (v : ℝ)
+    (hj : j < 2 * n) (h : lowerOK r (j + 1) v) : lowerOK r j v := by
+  rcases Nat.even_or_odd' j with ⟨k, rfl | rfl⟩
+  · rw [lowerOK_odd] at h
+    cases k with
+    | zero => exact lowerOK_zero r v
+    | succ k =>
+      rw [lowerOK_even_succ]
+      exact lt_of_lt_of_le (hr k (k + 1) (by omega) (by omega)) h
+  · have : 2 * k + 1 + 1 = 2 * (k + 1) := by ring
+    rw [this, lowerOK_even_succ] at h
+    rw [lowerOK_odd]; exact le_of_lt h
+
+theorem lower_antitone (r : ℕ → ℝ) (n : ℕ) (hr : ∀ i j, i < j → j < n → r i < r j) (v : ℝ) :
+    ∀ (d s : ℕ), s + d ≤ 2 * n → lowerOK r (s + d) v → lowerOK r s v := by
+  intro d
+  induction d with
+  | zero => intro s _ h; simpa using h
+  | succ d ih =>
+    intro s hs h
+    have h' : lowerOK r (s + d + 1) v := by rwa [Nat.add_assoc]
+    exact ih s (by omega) (lower_antitone_step r n hr (s + d) v (by omega) h')
+
+/-- upper boundaries are increasing -/
+theorem upper_mono_step (r : ℕ → ℝ) (n : ℕ) (hr : ∀ i j, i < j → j < n → r i < r j) (j : ℕ) (v : ℝ)
+    (hj : j < 2 * n) (h : upperOK r n j v) : upperOK r n (j + 1) v := by
+  rcases Nat.even_or_odd' j with ⟨k, rfl | rfl⟩
+  · rw [upperOK_even r n k v (by omega)] at h
+    rw [upperOK_odd]; exact le_of_lt h
+  · rw [upperOK_odd] at h
+    have e : 2 * k + 1 + 1 = 2 * (k + 1) := by ring
+    rw [e]
+    by_cases hk : k + 1 < n
+    · rw [upperOK_even r n (k + 1) v hk]
+      exact lt_of_le_of_lt h (hr k (k + 1) (by omega) hk)
+    · have : k + 1 = n := by omega
+      rw [this]; exact upperOK_last r n v
+
+theorem upper_mono (r : ℕ → ℝ) (n : ℕ) (hr : ∀ i j, i < j → j < n → r i < r j) (v : ℝ) :
+    ∀ (d s : ℕ), s + d ≤ 2 * n → upperOK r n s v → upperOK r n (s + d) v := by
+  intro d
+  induction d with
+  | zero => intro s _ h; simpa using h
+  | succ d ih =>
+    intro s hs h
+    have := upper_mono_step r n hr (s + d) v (by omega) (ih s (by omega) h)
+    rwa [Nat.add_assoc] at this
+
+/-- **a run of consecutive cells is an interval**: the interval from the lower boundary of cell s to the upper
+    boundary of cell e (s ≤ e ≤ 2n) contains exactly the points of the cells s, …, e -/
+theorem run_is_union (r : ℕ → ℝ) (n : ℕ) (hr : ∀ i j, i < j → j < n → r i < r j) (v : ℝ) :
+    ∀ (d s : ℕ), s + d ≤ 2 * n →
+      ((lowerOK r s v ∧ upperOK r n (s + d) v) ↔ ∃ i, s ≤ i ∧ i ≤ s + d ∧ cellMem r n i v) := by
+  intro d
+  induction d with
+  | zero =>
+    intro s _
+    simp only [Nat.add_zero]
+    constructor
+    · intro h; exact ⟨s, le_refl _, le_refl _, h⟩
+    · rintro ⟨i, h1, h2, h3⟩
+      have : i = s := by omega
+      subst this; exact h3
+  | succ d ih =>
+    intro s hs
+    constructor
+    · rintro ⟨hl, hu⟩
+      by_cases hprev : upperOK r n (s + d) v
+      · obtain ⟨i, h1, h2, h3⟩ := (ih s (by omega)).1 ⟨hl, hprev⟩
+        exact ⟨i, h1, by omega, h3⟩
+      · have hlo := (upper_compl r n (s + d) v (by omega)).1 hprev
+        exact ⟨s + d + 1, by omega, by omega, ⟨hlo, by rwa [Nat.add_assoc]⟩⟩
+    · rintro ⟨i, h1, h2, hl, hu⟩
+      obtain ⟨e1, rfl⟩ : ∃ e, i = s + e := ⟨i - s, by omega⟩
+      constructor
+      · exact lower_antitone r n hr v e1 s (by omega) hl
+      · obtain ⟨e2, he2⟩ : ∃ e, s + (d + 1) = s + e1 + e := ⟨d + 1 - e1, by omega⟩
+        rw [he2]
+        exact upper_mono r n hr v e2 (s + e1) (by omega) hu
+
+/-- membership in the interval of a run, in terms of the cell boundaries -/
+theorem runInterval_mem (r : ℕ → ℝ) (n s e : ℕ) (v : ℝ) :
+    SInt.mem r ⟨(cellLo s).1, (cellLo s).2, (cellHi n e).1, (cellHi n e).2⟩ v ↔ (lowerOK r s v ∧ upperOK r n e v) := by
+  unfold SInt.mem lowerOK upperOK
+  rfl
+
+/-- invariant of the sweep -/
+theorem sweepAux_mem (r : ℕ → ℝ) (n : ℕ) (hr : ∀ i j, i < j → j < n → r i < r j) (v : ℝ) :
+    ∀ (sat : List Bool) (j : ℕ) (cur : Option ℕ), j + sat.length = 2 * n + 1 →
+      (∀ s, cur = some s → s < j) →
+      ((∃ I ∈ sweepAux n j cur sat, SInt.mem r I v) ↔
+        ((∃ s, cur = some s ∧ ∃ i, s ≤ i ∧ i < j ∧ cellMem r n i v) ∨
+         (∃ i, j ≤ i ∧ sat[i - j]? = some true ∧ cellMem r n i v))) := by
+  intro sat
+  induction sat with
+  | nil =>
+    intro j cur hj hcur
+    have hj' : j = 2 * n + 1 := by simpa using hj
+    cases cur with
+    | none => simp [sweepAux]
+    | some s =>
+      have hs := hcur s rfl
+      simp only [sweepAux, List.mem_singleton, exists_eq_left, runInterval_mem]
+      obtain ⟨d, hd⟩ : ∃ d, j - 1 = s + d := ⟨j - 1 - s, by omega⟩
+      rw [hd, run_is_union r n hr v d s (by omega)]
+      constructor
+      · rintro ⟨i, h1, h2, h3⟩
+        left; exact ⟨s, rfl, i, h1, by omega, h3⟩
+      · rintro (⟨s', hs', i, h1, h2, h3⟩ | ⟨i, _, h, _⟩)
+        · cases hs'; exact ⟨i, h1, by omega, h3⟩
+        · simp at h
+  | cons b rest ih =>
+    intro j cur hj hcur
+    have hlen : j + 1 + rest.length = 2 * n + 1 := by simp at hj; omega
+    -- membership in the tail, re-indexed
+    have tailIdx : ∀ i, j + 1 ≤ i → ((b :: rest)[i - j]? = rest[i - (j + 1)]?) := by
+      intro i hi
+      have : i - j = (i - (j + 1)) + 1 := by omega
+      rw [this, List.getElem?_cons_succ]
+    cases cur with
+    | none =>
+      cases b with
+      | true =>
+        simp only [sweepAux, if_true]
+        rw [ih (j + 1) (some j) hlen (by intro s hs; cases hs; omega)]
+        constructor
+        · rintro (⟨s, hs, i, h1, h2, h3⟩ | ⟨i, h1, h2, h3⟩)
+          · cases hs
+            have : i = j := by omega
+            subst this
+            right; exact ⟨i, le_refl _, by simp, h3⟩
+          · right; exact ⟨i, by omega, by rw [tailIdx i h1]; exact h2, h3⟩
+        · rintro (⟨s, hs, _⟩ | ⟨i, h1, h2, h3⟩)
+          · cases hs
+          · by_cases hij : i = j
+            · subst hij; left; exact ⟨i, rfl, i, le_refl _, by omega, h3⟩
+            · right; exact ⟨i, by omega, by rw [← tailIdx i (by omega)]; exact h2, h3⟩
+      | false =>
+        simp only [sweepAux, Bool.false_eq_true, if_false]
+        rw [ih (j + 1) none hlen (by intro s hs; cases hs)]
+        constructor
+        · rintro (⟨s, hs, _⟩ | ⟨i, h1, h2, h3⟩)
+          · cases hs
+          · right; exact ⟨i, by omega, by rw [tailIdx i h1]; exact h2, h3⟩
+        · rintro (⟨s, hs, _⟩ | ⟨i, h1, h2, h3⟩)
+          · cases hs
+          · by_cases hij : i = j
+            · subst hij; simp at h2
+            · right; exact ⟨i, by omega, by rw [← tailIdx i (by omega)]; exact h2, h3⟩
+    | some s =>
+      have hs := hcur s rfl
+      cases b with
+      | true =>
+        simp only [sweepAux, if_true]
+        rw [ih (j + 1) (some s) hlen (by intro s' hs'; cases hs'; omega)]
+        constructor
+        · rintro (⟨s', hs', i, h1, h2, h3⟩ | ⟨i, h1, h2, h3⟩)
+          · cases hs'
+            by_cases hij : i = j
+            · subst hij; right; exact ⟨i, le_refl _, by simp, h3⟩
+            · left; exact ⟨s, rfl, i, h1, by omega, h3⟩
+          · right; exact ⟨i, by omega, by rw [tailIdx i h1]; exact h2, h3⟩
+        · rintro (⟨s', hs', i, h1, h2, h3⟩ | ⟨i, h1, h2, h3⟩)
+          · cases hs'; left; exact ⟨s, rfl, i, h1, by omega, h3⟩
+          · by_cases hij : i = j
+            · subst hij; left; exact ⟨s, rfl, i, by omega, by omega, h3⟩
+            · right; exact ⟨i, by omega, by rw [← tailIdx i (by omega)]; exact h2, h3⟩
+      | false =>
+        simp only [sweepAux, Bool.false_eq_true, if_false]
+        have split : ∀ (P Q : Prop) (I0 : SInt) (L : List SInt), (P ↔ SInt.mem r I0 v) → (Q ↔ ∃ I ∈ L, SInt.mem r I v) →
+            ((∃ I ∈ I0 :: L, SInt.mem r I v) ↔ (P ∨ Q)) := by
+          intro P Q I0 L hP hQ
+          rw [hP, hQ]
+          constructor
+          · rintro ⟨I, hI, hm⟩
+            rw [List.mem_cons] at hI
+            rcases hI with rfl | hI
+            · left; exact hm
+            · right; exact ⟨I, hI, hm⟩
+          · rintro (h | ⟨I, hI, hm⟩)
+            · exact ⟨I0, List.mem_cons_self, h⟩
+            · exact ⟨I, List.mem_cons_of_mem _ hI, hm⟩
+        obtain ⟨d, hd⟩ : ∃ d, j - 1 = s + d := ⟨j - 1 - s, by omega⟩
+        have hrun : (∃ i, s ≤ i ∧ i < j ∧ cellMem r n i v) ↔
+            SInt.mem r ⟨(cellLo s).1, (cellLo s).2, (cellHi n (j - 1)).1, (cellHi n (j - 1)).2⟩ v := by
+          rw [runInterval_mem, hd, run_is_union r n hr v d s (by omega)]
+          constructor
+          · rintro ⟨i, h1, h2, h3⟩; exact ⟨i, h1, by omega, h3⟩
+          · rintro ⟨i, h1, h2, h3⟩; exact ⟨i, h1, by omega, h3⟩
+        rw [split _ _ _ _ hrun (ih (j + 1) none hlen (by intro s' hs'; cases hs')).symm]
+        constructor
+        · rintro (h | (⟨s', hs', _⟩ | ⟨i, h1, h2, h3⟩))
+          · left; exact ⟨s, rfl, h⟩
+          · cases hs'
+          · right; exact ⟨i, by omega, by rw [tailIdx i h1]; exact h2, h3⟩
+        · rintro (⟨s', hs', h⟩ | ⟨i, h1, h2, h3⟩)
+          · cases hs'; left; exact h
+          · by_cases hij : i = j
+            · subst hij; simp at h2
+            · right; right; exact ⟨i, by omega, by rw [← tailIdx i (by omega)]; exact h2, h3⟩
+
+/-- **the sweep is exact**: for strictly increasing roots r_0 < … < r_{n-1} and a satisfaction vector of the 2n+1
+    cells, a real v lies in one of the returned intervals iff the cell containing v is satisfied -/
+theorem C12_sweep (r : ℕ → ℝ) (n : ℕ) (hr : ∀ i j, i < j → j < n → r i < r j) (sat : List Bool)
+    (hlen : sat.length = 2 * n + 1) (v : ℝ) :
+    (∃ I ∈ sweep n sat, SInt.mem r I v) ↔ ∃ i, sat[i]? = some true ∧ cellMem r n i v := by
+  unfold sweep
+  rw [sweepAux_mem r n hr v sat 0 none (by omega) (by intro s hs; cases hs)]
+  constructor
+  · rintro (⟨s, hs, _⟩ | ⟨i, _, h2, h3⟩)
+    · cases hs
+    · exact ⟨i, by simpa using h2, h3⟩
+  · rintro ⟨i, h2, h3⟩
+    right; exact ⟨i, Nat.zero_le _, by simpa using h2, h3⟩
+
+/-- every real lies in exactly one cell -/
+theorem cell_exists (r : ℕ → ℝ) (n : ℕ) (hr : ∀ i j, i < j → j < n → r i < r j) (v : ℝ) :
+    ∃ i, i ≤ 2 * n ∧ cellMem r n i v := by
+  have := (run_is_union r n hr v (2 * n) 0 (by omega)).1 ⟨lowerOK_zero r v, by simpa using upperOK_last r n v⟩
+  obtain ⟨i, _, h2, h3⟩ := this
+  exact ⟨i, by omega, h3⟩
+
+end Eval
+end LP
